@@ -168,6 +168,12 @@ func C12(r *simkit.Run) {
 	}
 	r.Logf("edit %s at %d (%s, %s): %v", kind, at, where, lenChange, idsOf(newStmts))
 	r.Sample("edit: %s at %d (%s, %s) -> statements %v; re-hash", kind, at, where, lenChange, idsOf(newStmts))
+	// Sometimes the resumed run fails again, further down the same file.
+	round2, j := false, 0
+	if !touches && len(newStmts) > k && t.Chance("second-failure", 1, 2) {
+		round2, j = true, k+t.Draw("second-fail-at", len(newStmts)-k)
+		drv.FailAlways[newStmts[j]] = true
+	}
 	before := viewOf(revs.Snapshot())
 	nEffects := len(drv.Effects)
 	call := func(label string) (err error, panicked string) {
@@ -219,6 +225,36 @@ func C12(r *simkit.Run) {
 		return
 	}
 	// Only the tail was edited: the run resumes with the new tail.
+	if round2 {
+		// The resumed run failed again further down (statement j of the new file): everything up to
+		// it ran, the history records j, and after the cause is fixed the next run finishes the file.
+		got := make([]string, len(acts))
+		for i, a := range acts {
+			got[i] = a.Stmt
+		}
+		wantPrefix := newStmts[k : j+1]
+		rv := revs.Store[victim.Version]
+		if strings.Join(got, "\x00") != strings.Join(wantPrefix, "\x00") || errClass(err) != "stmt-error" || rv == nil || rv.Applied != j {
+			r.Fail(prop, "resume", fmt.Sprintf("resume/%s/%s", kind, lenChange), "tail-only edit (%s at %d, applied=%d) with statement %d failing: expected execution of %v and a revision recording %d, got %v err=%v revision %+v", kind, at, k, j, idsOf(wantPrefix), j, ids, err, rv)
+			return
+		}
+		r.Probe("second-failure-in-the-same-file")
+		drv.FailAlways = map[string]bool{}
+		nEffects = len(drv.Effects)
+		k = j
+		err, pan = call("resume-2")
+		acts = drv.Effects[nEffects:]
+		ids = nil
+		for _, a := range acts {
+			ids = append(ids, StmtID(a.Stmt))
+		}
+		r.Logf("apply after second failure -> %s panic=%v exec=%v store=[%s]", errClass(err), pan != "", ids, storeDigest(revs))
+		r.Sample("statement %d fails in the resumed run; cause fixed; apply again -> %s exec=%v history [%s]", j, errClass(err), ids, storeDigest(revs))
+		if pan != "" {
+			r.Fail(prop, "no-crash", "panic-second-resume/"+lenChange, "Executor panicked when resuming after the second failure: %s", pan)
+			return
+		}
+	}
 	want := append([]string(nil), newStmts[k:]...)
 	if post {
 		want = append(want, files[vi+1].Stmts...)
